@@ -86,38 +86,62 @@ def judge(ctx, gname, g, m, f, T_l, P_l, rng):
         if vc != vo and not flipped:
             flipped = True
             key = None
-            if numq:
-                key = KF_NUMQ
-            elif uses(f, "nth"):
-                key = KF_NTH
-            elif mex:
-                key = KF_MEXPR
-            elif any(q[0] == "count" for q in R2.subformulas(f)):
+            from islamon import patches
+            has_count = any(q[0] == "count" for q in R2.subformulas(f))
+            grows = domain_grows(f, P_l, C_l)
+            if has_count:
                 # count() answers False when its bounded candidate search fails on an open tree. Repaired twin: with "search
                 # exhausted" read as "not ready", does the contradiction vanish? (a premature verdict that count() gives
                 # without entering the search is not this mechanism)
-                from islamon import patches
                 with patches.count_search_not_a_verdict() as seen:
                     vo2 = ev3(ctx, text, to_dt(P_l), g)
                     vc2 = ev3(ctx, text, to_dt(C_l), g)
                 if seen["false_after_search_on_open_tree"] and (vo2 == "U" or (vo2 in ("T", "F") and vc2 == vo2)):
                     key = KF_COUNT
-            elif any(q[0] in ("forall", "exists") and any(kids(n) is None and lab(n) == q[1] and q[1] in m.reach()[q[1]] for _, n in nodes(P_l))
-                     for q in R2.subformulas(f)):
-                key = KF_SELFREC   # an open leaf of the quantified (recursive) type: occurrences nested below it are not anticipated
-            else:
-                from islamon import patches
+            if key is None and not numq:
                 with patches.no_forall_drop():   # repaired twin: does the contradiction vanish without the shortcut?
                     vo2 = ev3(ctx, text, to_dt(P_l), g)          # (the shortcut can falsify either side: a premature verdict
                     vc2 = ev3(ctx, text, to_dt(C_l), g)          #  on the open tree, or a wrong one on the closed completion)
-                if vo2 == "U" or (vo2 in ("T", "F") and vc2 == vo2):
+                if (vo2 == "U" or (vo2 in ("T", "F") and vc2 == vo2)) and (vo2, vc2) != (vo, vc):
                     key = KF_DROPPED
+            if key is None:
+                # the remaining listed mechanisms are all "a match that only the completion contains was not anticipated";
+                # they can explain a contradiction only if some quantifier's set of matching nodes grows in the completion
+                if numq:
+                    key = KF_NUMQ
+                elif not grows:
+                    ctx.count("contradiction_without_domain_growth")
+                elif uses(f, "nth"):
+                    key = KF_NTH
+                elif mex:
+                    key = KF_MEXPR
+                elif any(q[0] in ("forall", "exists") and any(kids(n) is None and lab(n) == q[1] and q[1] in m.reach()[q[1]] for _, n in nodes(P_l))
+                         for q in R2.subformulas(f)):
+                    key = KF_SELFREC   # an open leaf of the quantified (recursive) type: occurrences nested below it are not anticipated
             ref = R2.evaluate_ref(f, to_dt(C_l))
             ctx.violation(key, f"open tree verdict {vo}, {kind} completion verdict {vc} (specification on the completion: {ref})",
                           {"grammar": g, "formula": text, "ast": f, "open": P_l, "completion": C_l})
     if not flipped:
         ctx.held((gname, R2.skeleton(f), vo), sample={"grammar": gname, "formula": text, "open_tree": P.to_string(show_open_leaves=True)[:80], "open_verdict": vo,
                                                        "completions": len(comps)})
+
+
+def domain_grows(f, P_l, C_l):
+    """does some tree quantifier of f (or the needle of a count / the type counted by nth) have more matching nodes in the
+    completion than in the open prefix? (R2's own match relation; scoping by the in-variable is ignored: an upper bound)"""
+    def matches(q, tree):
+        nt, mexpr = q[1], q[4]
+        n = 0
+        for _, x in nodes(tree):
+            if lab(x) != nt:
+                continue
+            if mexpr is None or any(R2.match(x, mt, P) is not None for mt, P in mexpr[1]):
+                n += 1
+        return n
+    for q in R2.subformulas(f):
+        if q[0] in ("forall", "exists") and matches(q, C_l) > matches(q, P_l):
+            return True
+    return False
 
 
 def run(ctx):
